@@ -1716,6 +1716,25 @@ func solveOne(ex *Exec, o *Obligation, cfg *solveCfg) {
 		pr, pall := raceSolvers(pfile, "", cfg.first, "z3")
 		all = append(all, pall...)
 		if pr.Status == "unsat" {
+			if cfg.agree {
+				// thorough: the other z3-syntax back ends must not contradict the proof of the pruned query
+				for _, sb := range solverBins {
+					if strings.HasPrefix(sb.name, "cvc5") || sb.name == pr.Solver {
+						continue
+					}
+					r2 := runSolver(contextBackground(), sb.name, sb.bin, pfile, cfg.timeout)
+					all = append(all, r2)
+					if r2.Status == "sat" {
+						cfg.stats.add(all, pr)
+						o.Solver = "disagreement:" + pr.Solver + "/" + r2.Solver
+						o.Status = "unknown"
+						o.Raw = "solvers disagree on the pruned query: unsat vs sat"
+						o.Seconds = time.Since(t0).Seconds()
+						o.SMTFile = pfile
+						return
+					}
+				}
+			}
 			cfg.stats.add(all, pr)
 			o.Solver = pr.Solver + " (pruned query)"
 			o.Seconds = time.Since(t0).Seconds()
